@@ -337,3 +337,65 @@ _run_c16c = run
 def run(ctx):  # noqa: F811
     _run_c16c(ctx)
     r16_4(ctx, ctx.model)
+
+
+# ---------------------------------------------------------------------------------------------------------------- R16.5
+def r16_5(ctx, m):
+    R = "R16.5"
+    ctx.rule(R, "quasi-Newton minimisers keep their history on the object: every minimisation starts from an empty history - each "
+                "subclass of DescentMinimizer whose reset() re-initialises history attributes has a __call__ that performs that "
+                "re-initialisation (self.reset() or the same assignments) BEFORE delegating to the base loop; a reset that only runs "
+                "in the constructor lets a second run on the same object start with the first run's curvature pairs, so its first "
+                "direction is not the negative gradient and the two L-BFGS variants disagree", floor=2)
+    from ..util import cfg_of, find_nodes
+    mod = m.module("nifty.cl.minimization.descent_minimizers")
+    base = mod.classes.get("DescentMinimizer")
+    n = 0
+    for c in mod.classes.values():
+        if c is base or base not in m.mro(c):
+            continue
+        rs = c.methods.get("reset")
+        gd = c.methods.get("get_descent_direction")
+        if rs is None or gd is None:
+            continue
+        hist = {src(t)[5:] for st in walk_no_nested(rs.node) if isinstance(st, ast.Assign) for t in st.targets if src(t).startswith("self.")}
+        read = {z.attr for z in ast.walk(gd.node) if isinstance(z, ast.Attribute) and src(z.value) == "self"}
+        hist &= read
+        if not hist:
+            continue
+        n += 1
+        ctx.saw_class(c)
+        key = f"{c.key}::history {sorted(hist)} is emptied at the start of every run"
+        call = c.methods.get("__call__")
+        if call is None:
+            ctx.bad(R, key, "no __call__ override: reset() is not part of a run (the base loop calls it only after a failed line search)", c)
+            continue
+        cfg = cfg_of(call)
+        sup = [n_ for n_, z in find_nodes(cfg, lambda q: isinstance(q, ast.Call) and isinstance(q.func, ast.Attribute) and q.func.attr == "__call__"
+                                          and "super" in src(q.func.value))]
+        if not sup:
+            ctx.und(R, key, "__call__ does not delegate to the base loop", call)
+            continue
+        dom = cfg.dominators()
+        resets = set()
+        for n_ in cfg.nodes:
+            if n_.ast is None or n_.kind != "stmt":
+                continue
+            if any(isinstance(z, ast.Call) and src(z.func) == "self.reset" for z in ast.walk(n_.ast)):
+                if all(n_.id in dom[s_.id] for s_ in sup):
+                    resets |= hist
+            if isinstance(n_.ast, ast.Assign):
+                for t in n_.ast.targets:
+                    if src(t).startswith("self.") and src(t)[5:] in hist and all(n_.id in dom[s_.id] for s_ in sup):
+                        resets.add(src(t)[5:])
+        ctx.check(R, key, resets >= hist, f"re-initialised before the base loop: {sorted(resets)}; missing {sorted(hist - resets)}", call)
+    if not n:
+        ctx.und(R, f"{mod.name}::stateful minimisers", "none found", mod.relpath)
+
+
+_run_c16d = run
+
+
+def run(ctx):  # noqa: F811
+    _run_c16d(ctx)
+    r16_5(ctx, ctx.model)
